@@ -333,3 +333,23 @@ add("C10",
     "findings eq-foreign-nonstr-name and garbage-provides-exception-type. Old-style `__implemented__ = ...` assignments and arguments of the wrong kind (a non-interface "
     "as `provided`, a list as lookup1's single `required`) are outside the generated programs.",
     "Lean 4 proof (partial: twin equalities for comparison, adaptation and the declaration queries) + view-probing correspondence on real objects + direct C-vs-Python differential execution", "6/C10")
+
+add("C07",
+    "Theorems on the validated registry model (ZI/Props/C07.lean, C07Hist.lean). Walk: subsRec_eq_concat / C07_multiset (the _subscriptions walk returns exactly the "
+    "concatenation of the leaf lists — each in subscription order, nothing dropped or duplicated — over the applicable paths in REVERSED lexicographic order). IN EVERY "
+    "WORLD (no hypothesis, both flavours): C07_chain (the answer is the concatenation over `ro` reversed: base registries first), C07_flat / C07_regSubs_flat (expressed "
+    "through the flat view of the registrations, not the nested containers), C07_count (multiplicity = sum over registries and keys read), C07_mem_none (handlers), "
+    "C07_order_chain, C07_order_required, C07_sreqs_order (less specific required specifications first, all positions), the unsubscribe clause in state form "
+    "(C07_unsubscribe_removes / _keeps / _order / _all / _other). WITH THE HISTORY INVARIANTS (C04Ext: extendors content, counts): C07_appKeys_spec (the keys read are "
+    "exactly the stored keys whose required part the query is-or-extends position by position and whose provided interface is live and extends the requested one), "
+    "C07_mem_some, C07_multiplicity (count of a subscriber in the answer = number of applicable entries of allSubscriptions() over the chain — every live applicable "
+    "subscriber, as many times as subscribed and not unsubscribed; needs duplicate-free resolution orders, shown necessary by kernel-checked counterexamples). OVER ALL "
+    "HISTORIES: C07_leaf_history (the list under a key is the pure replay of the history on that key: subscribe appends, unsubscribe with a value removes all equal "
+    "entries, without a value all entries, nothing else touches it), C07_subscribe_history, C07_unsubscribe_history, C07_unsubscribe_result (every other subscriber of "
+    "every query result is untouched, also when the removal drops the interface from _extendors), and for the CACHED subscriptions() of reachable worlds C07_hist_flat / "
+    "_mem_some / _mem_none / _count / _multiplicity / _order_chain (via C05_registry_transparent_subscriptions). The multiset, the three ordering clauses and unsubscribe "
+    "semantics are also judged by the flat oracle on every answer; a world stream re-checks subscriptions() / subscribers() against a never-queried twin after "
+    "declaration and hierarchy changes.",
+    "The cached entry point of the generation-checking flavour is covered by C05_verifying_transparent_subscriptions + the any-world theorems. Static specification graph "
+    "in the registry model. Observed and proved (C07_provKeys_order): under one required part the provided keys are visited most specific first.",
+    "Lean 4 proof (walk = ordered concatenation; membership, multiplicity and order over all histories) + differential correspondence + flat-multiset oracle", "6/C07")
